@@ -270,6 +270,18 @@ def _enqueue_timeouts(case):
             vdl = max(0.002, (S + delta) / 0.99)
 
             async def victim():
+                if r % 2:
+                    # the async idiom of giving up: the waiting task is cancelled (about when the slot is freed)
+                    task = asyncio.ensure_future(server.call(tok(1, r, 0.001), timeout=10, backpressure=False))
+                    await asyncio.sleep(max(0.001, S + delta))
+                    task.cancel()
+                    try:
+                        await task
+                    except asyncio.CancelledError:
+                        obs['cancelled_while_waiting_for_room'] = obs.get('cancelled_while_waiting_for_room', 0) + 1
+                    except Exception:  # noqa: BLE001
+                        pass
+                    return
                 try:
                     await server.call(tok(1, r, 0.001), timeout=vdl, backpressure=False)
                 except ServerBacklogFull:
@@ -312,7 +324,7 @@ def _enqueue_timeouts(case):
     except watch.Inconclusive as e:
         return {'violations': viol, 'obs': obs, 'inconclusive': str(e), 'exit_after': True}
     st = fz.stats()
-    res = {'violations': viol[:4], 'obs': obs, 'nontrivial': obs['gave_up_waiting_for_room'] > 0 and obs['witness_requests'] > 0, 'fuzz': st if case['site'] and not is_async else None,
+    res = {'violations': viol[:4], 'obs': obs, 'nontrivial': obs['gave_up_waiting_for_room'] + obs.get('cancelled_while_waiting_for_room', 0) > 0 and obs['witness_requests'] > 0, 'fuzz': st if case['site'] and not is_async else None,
            'sig': hash(('enq-to', case['mode'], cap, case['seed'])) & 0xFFFFFFFFFFFF,
            'sample': {'scenario': 'enqueue-timeouts', 'mode': case['mode'], 'capacity': cap, 'victims': case['victims'], 'gave_up_waiting_for_room': obs['gave_up_waiting_for_room'],
                       'witness_requests': obs['witness_requests'], 'site_hits': st['site_hits']}}
